@@ -1066,7 +1066,7 @@ func genCase(r *hx.Rand, tier string) caseT {
 			case kinds[i] == "env":
 				s.M = map[string]any{}
 				for n := r.Range(0, 3); n > 0; n-- {
-					s.M[hx.Pick(r, []string{"NAME", "SERVER_PORT", "SERVER_HOST", "DEBUG", "A_B", "LEVEL", "DB_POOL_SIZE"})] = hx.Pick(r, []string{"1", "envv", "", "true", "8081"})
+					s.M[hx.Pick(r, []string{"NAME", "SERVER_PORT", "SERVER_HOST", "DEBUG", "A_B", "LEVEL", "DB_POOL_SIZE", "CACHE__TTL", "_RATE", "Timeout_", "x-y"})] = hx.Pick(r, []string{"1", "envv", "", "true", "8081", " padded ", "a=b", "0"})
 				}
 			case li > 0 && r.Chance(1, 2):
 				// a variation of what the source returned last time: keys vanish, values change
